@@ -439,6 +439,17 @@ def fid_scale(cfg, k=2):
   cfg.z = cfg.z * k + 1
 
 
+def _fid_scale_v2(cfg, k=2):
+  """What `fid_scale` is REBOUND to by a 'rebind' step (same name, new code)."""
+  cfg.z = cfg.z * k + 100
+
+
+def rebind_fid_scale():
+  """The module attribute `fid_scale` now names another function."""
+  g = globals()
+  g['fid_scale'], g['_fid_scale_v2'] = g['_fid_scale_v2'], g['fid_scale']
+
+
 def fid_replace(cfg, v):
   """Fiddler that returns a replacement instead of mutating."""
   import copy
